@@ -119,7 +119,9 @@ pub async fn scenario() {
 	let mut http_tasks = Vec::new();
 	// hand-written upgrade attempts that were aborted / refused: their server side may hold a slot until it is gone
 	let mut raws: Vec<(u64, Ctl)> = Vec::new();
-	// stamps at which virtual time had just advanced, i.e. every task had run as far as it could
+	// stamps at which virtual time had just advanced AND nothing but this task was runnable, i.e. every other task had
+	// run as far as it could (a timer of the system that fires at the very instant of the settle makes its task
+	// runnable next to this one: such a stamp proves nothing and is not recorded)
 	let mut settles: Vec<u64> = Vec::new();
 	let mut n = 0u64;
 	for step in &steps {
@@ -296,7 +298,13 @@ pub async fn scenario() {
 			}
 			Step::Settle(ms) => {
 				tokio::time::sleep(Duration::from_millis(*ms as u64)).await;
-				settles.push(rt::event("settled", ""));
+				let idle = rt::nothing_else_runnable();
+				let st = rt::event("settled", "");
+				if idle {
+					settles.push(st);
+				} else {
+					rt::probe("settle_while_others_runnable");
+				}
 			}
 		}
 		rt::yield_n(rt::draw("between", 3)).await;
